@@ -37,3 +37,6 @@ runit "c2: RemoveFront neither clears nor advances the head when the size hits z
 
 gen; perl -0pi -e 's/if b.end >= b.ring.Len\(\) \{/if b.end > b.ring.Len() {/' "$F"; changed
 runit "g: AppendBack grows one element too late (overwrites the front when full)"
+
+gen; perl -0pi -e 's/if b.end >= b.ring.Len\(\) \{/if b.ring.Move(b.end).Value != nil {/' "$F"; changed
+runit "n: AppendBack detects a full ring by a non-nil slot after the last element (nil element at the front of a full ring is overwritten)"
